@@ -12,6 +12,7 @@ Record dunion := { du_name : string; du_from : list string; du_to : list (string
 Record denum := { de_name : string; de_members : list string; de_values : option (list string); de_iota : bool; de_file : string }.
 
 Record c6_case := {
+  c6_root : string;     (* the source root handed to dart.Generate *)
   c6_prog : prog; c6_enums : list enum; c6_ana : ana_obs;
   c6_files : list dfile; c6_classes : list dclass; c6_unions : list dunion; c6_denums : list denum
 }.
@@ -59,6 +60,26 @@ Definition chk_model (c : c6_case) : bool :=
              && (match de_values e with Some vs => strs_eqb (dart_enum_values m) vs | None => en_is_iota m end)
     | _ => true
     end) (c6_denums c).
+
+(** * every named Go type is emitted in the file assigned to its package (Model/Dart.v: dart_out_file) *)
+Definition file_of_id (c : c6_case) (id : string) : option string :=
+  match find_type id (pr_types (c6_prog c)) with
+  | Some d => Some (dart_out_file (c6_root c) (n_pkg d))
+  | None => None end.
+
+Definition node_file_ok (c : c6_case) (ns : list nrec) (file : string) : bool :=
+  match ns with
+  | n :: _ => ambiguous ns || match nr_at n with
+                              | GNamed id => match file_of_id c id with Some f => String.eqb f file | None => false end
+                              | _ => true end
+  | [] => true
+  end.
+
+Definition chk_files (c : c6_case) : bool :=
+  let pr := c6_prog c in let a := c6_ana c in
+  forallb (fun cl => node_file_ok c (find_named pr a KdStruct (dc_name cl)) (dc_file cl)) (c6_classes c)
+  && forallb (fun u => node_file_ok c (find_named pr a KdUnion (du_name u)) (du_file u)) (c6_unions c)
+  && forallb (fun e => node_file_ok c (find_named pr a KdEnum (de_name e)) (de_file e)) (c6_denums c).
 
 (** * links, on the parsed files alone *)
 Definition file_named (c : c6_case) (n : string) : option dfile := find (fun f => String.eqb (df_name f) n) (c6_files c).
@@ -130,5 +151,5 @@ Section Generic.
   Fixpoint mism_from (n : N) (cases : list A) : list N :=
     match cases with [] => [] | c :: r => if f c then mism_from (N.succ n) r else n :: mism_from (N.succ n) r end.
 End Generic.
-Definition mismatches := mism_from chk_model 0%N.
+Definition mismatches := mism_from (fun c => chk_model c && chk_files c) 0%N.
 Definition prop_failures := mism_from chk_prop 0%N.
